@@ -6,7 +6,7 @@ ebpfcat/terminals.py `AerotechBase.allocate`; ebpfcat/ethercat.py `Packet.append
 `EtherCat.get_fmmu_addr`; ebpfcat/lock.py `FMMULock.get_next_addr`).
 
 A terminal's `allocate` is read as the straight-line script of primitive actions it performs on
-the packet (`termOps`); `runOp` executes one action, `OverflowError` is `none`.  The size and
+the packet (`termOps`); `runOps` executes them, `OverflowError` is `none`.  The size and
 position accounting of `Packet.append` is modelled here (datagram `k` starts at
 `PACKET_HEADER + Σ_{j<k} (len_j + DATAGRAM_HEADER + DATAGRAM_TAIL)`); the bytes of the assembled
 frame belong to C11. -/
